@@ -50,6 +50,9 @@ pub struct Entry {
     /// Tensors above the 32K-element chunk size of the parallel elementwise
     /// kernels; only run when the engine is given --big.
     pub big: bool,
+    /// "threshold" sub-family of C14: dimensions drawn from around and beyond
+    /// the block / vector sizes of the kernels underneath, integer-valued data.
+    pub thr: bool,
     /// Dimension along which "reserved" capacity is created for input 0 (Concat axis).
     pub reserve_axis: Option<i64>,
 }
@@ -251,6 +254,7 @@ pub struct B {
     direct: Option<OpArc>,
     num: u8,
     big: bool,
+    thr: bool,
 }
 
 pub fn e(key: &str, op: &str) -> B {
@@ -267,6 +271,7 @@ pub fn e(key: &str, op: &str) -> B {
         direct: None,
         num: 0,
         big: false,
+        thr: false,
     }
 }
 
@@ -302,6 +307,10 @@ impl B {
     }
     pub fn num(mut self, n: u8) -> B {
         self.num = n;
+        self
+    }
+    pub fn thr(mut self) -> B {
+        self.thr = true;
         self
     }
     pub fn big(mut self) -> B {
@@ -340,6 +349,7 @@ impl B {
             reserve_axis: self.reserve_axis,
             num: self.num,
             big: self.big,
+            thr: self.thr,
         }
     }
 }
@@ -355,6 +365,7 @@ pub fn catalogue() -> Vec<Entry> {
     binary(&mut v);
     shape_ops(&mut v);
     super::catalogue2::more(&mut v);
+    super::catalogue3::threshold(&mut v);
     v
 }
 
@@ -1053,7 +1064,7 @@ pub fn smoke() {
     let cat = catalogue();
     let mut rng = Rng::new(7);
     for en in &cat {
-        if en.big {
+        if en.big || (en.thr && !std::env::args().any(|a| a == "--thr")) {
             continue;
         }
         let op = match en.load() {
@@ -1067,7 +1078,7 @@ pub fn smoke() {
             let (mut ok, mut err, mut pan) = (0, 0, 0);
             let mut first = String::new();
             for k in 0..30 {
-                let mut g = G { rng: &mut rng, dt, special: k % 4 == 3, exact: en.num == 1 && k % 2 == 0 };
+                let mut g = G { rng: &mut rng, dt, special: k % 4 == 3 && !en.thr, exact: en.thr || (en.num == 1 && k % 2 == 0) };
                 let c = (en.gen_fn)(&mut g);
                 let mats: Vec<super::Mat> = c.inputs.iter().map(|i| super::Mat::new(i, None)).collect();
                 let views: Vec<_> = mats.iter().map(|m| m.view()).collect();
